@@ -715,6 +715,19 @@ def re_sub(ex, args, kw, st):
             r = f(s.z)
             st.fact(z3.Length(r) <= z3.Length(s.z))
             return VBytes(r)
+    if isinstance(repl, VFunc) and "@resub_callback" in ex.c.types:
+        # re.sub(P, callback, s) with a nested function as replacement: the result is an uninterpreted function of s; what the contract ASSUMES of the
+        # callback (types["@resub_callback"], e.g. that every replacement is no longer than its match) is listed in the evidence and yields the facts below
+        f = uf(ex, "RESUB_CB_" + str(abs(hash(pat)) % 10**8), S, S)
+        r = f(s.z)
+        note = ex.c.types["@resub_callback"]
+        ex.assumed.add(f"regex.sub(P, {repl.name}, s): uninterpreted function of s; ASSUMED of the callback {repl.name}: {note}")
+        if "never-longer" in note:
+            st.fact(z3.Length(r) <= z3.Length(s.z))
+        if "printable" in note:
+            pr = z3.Star(z3.Range("!", "~"))
+            st.fact(z3.Implies(z3.InRe(s.z, pr), z3.InRe(r, pr)))
+        return VBytes(r)
     raise Unsupported("re.sub with a non-empty or callable replacement")
 
 
